@@ -364,7 +364,7 @@ def sound_cfg(case):
     those containers into leaves are replaced (a custom node whose unflatten needs structured
     children is outside 'leaf-typed replacement' / identity preservation)."""
     cfg = case['cfg']
-    if cfg['pred'] in ('tuple2', 'dict_has_a') and any(
+    if cfg['pred'] in ('tuple2', 'dict_has_a', 'anydict_has_a') and any(
             contains_tag(case[k], ('partial',)) for k in case if k != 'cfg'):
         cfg = dict(cfg, pred='none')
     return cfg
@@ -380,6 +380,7 @@ PREDICATES = {
     'tuple2': lambda x: type(x) is tuple and len(x) == 2,
     'listsub': lambda x: isinstance(x, U.ListSub),
     'dict_has_a': lambda x: type(x) is dict and 'a' in x,
+    'anydict_has_a': lambda x: type(x) in (dict, OrderedDict, defaultdict) and 'a' in x,
     'leaf_even': lambda x: isinstance(x, U.Leaf) and x.n % 2 == 0,
     'is_cg': lambda x: type(x) is U.CG,
     'is_nt2': lambda x: type(x) is U.NT2,
@@ -436,3 +437,231 @@ def kw(cfg):
     if p is not None:
         d['is_leaf'] = p
     return d
+
+
+# ---------------------------------------------------------------- description surgery and pairs
+import copy as _copy  # noqa: E402
+
+LEAF_TAGS = ('L', 'i', 's', 'f', 'sub')
+
+
+def children_refs(desc):
+    """[(container, index)] such that container[index] is a child tree description of this node"""
+    t = desc[0]
+    if t in ('tuple', 'list', 'deque', 'cg', 'cu', 'ci', 'cq'):
+        return [(desc[1], i) for i in range(len(desc[1]))]
+    if t in ('nt', 'ss'):
+        return [(desc[2], i) for i in range(len(desc[2]))]
+    if t in ('dict', 'od', 'cm', 'cp'):
+        return [(kc, 1) for kc in desc[1]]
+    if t == 'dd':
+        return [(kc, 1) for kc in desc[2]]
+    if t in ('cn', 'dc', 'cs'):
+        return [(desc, 1), (desc, 2)]
+    if t == 'partial':
+        return [(desc[2], i) for i in range(len(desc[2]))] + [(kc, 1) for kc in desc[3]]
+    return []
+
+
+def walk_refs(desc):
+    """yield (container, index) for every node of the tree description, root first"""
+    root = [desc]
+    stack = [(root, 0)]
+    while stack:
+        c, i = stack.pop()
+        yield c, i
+        stack.extend(reversed(children_refs(c[i])))
+
+
+def count_leaves(desc):
+    return sum(1 for c, i in walk_refs(desc) if c[i][0] in LEAF_TAGS)
+
+
+def substitute_leaves(draw, desc, sub, prob_num=1, prob_den=3, at_least_one=False):
+    """replace some leaf positions by drawn subtrees (makes `desc` a prefix of the result)"""
+    d = _copy.deepcopy(desc)
+    root = [d]
+    refs = [(c, i) for c, i in walk_refs(d) if c[i][0] in LEAF_TAGS]
+    # walk_refs(d) used root=[d] internally; rebuild refs against our own root holder
+    refs = []
+    stack = [(root, 0)]
+    while stack:
+        c, i = stack.pop()
+        if c[i][0] in LEAF_TAGS:
+            refs.append((c, i))
+        stack.extend(reversed(children_refs(c[i])))
+    done = 0
+    for c, i in refs:
+        if draw(st.integers(1, prob_den)) <= prob_num:
+            c[i] = draw(sub)
+            done += 1
+    if at_least_one and not done and refs:
+        c, i = refs[draw(st.integers(0, len(refs) - 1))]
+        c[i] = draw(sub)
+    return root[0]
+
+
+def _node_refs(d):
+    root = [d]
+    out = []
+    stack = [(root, 0)]
+    while stack:
+        c, i = stack.pop()
+        out.append((c, i))
+        stack.extend(reversed(children_refs(c[i])))
+    return root, out
+
+
+def dict_variant(draw, desc):
+    """every dict-like node: random key permutation + random kind; deques: other maxlen mode"""
+    root, refs = _node_refs(_copy.deepcopy(desc))
+    for c, i in refs:
+        n = c[i]
+        t = n[0]
+        if t in ('dict', 'od', 'dd'):
+            items = n[1] if t != 'dd' else n[2]
+            hist = n[2] if t != 'dd' else n[3]
+            if any(op[0] == 'auto' for op in hist):
+                continue   # auto-inserted keys are part of the key set: keep the node as is
+            perm = draw(st.permutations(list(range(len(items)))))
+            items = [items[j] for j in perm]
+            nt = draw(st.sampled_from(['dict', 'od', 'dd']))
+            if nt == 'dd':
+                c[i] = ['dd', draw(_FACT), items, []]
+            else:
+                c[i] = [nt, items, []]
+        elif t == 'deque':
+            c[i] = ['deque', n[1], draw(st.sampled_from(['none', 'len', 'len+2'])), []]
+    return root[0]
+
+
+NEAR_MISS_EDITS = ('list_tuple', 'arity_plus', 'arity_minus', 'key_rename', 'key_add', 'key_remove',
+                   'nt_swap', 'meta_change', 'node_to_leaf', 'none_leaf', 'kind_swap', 'dict_to_cm')
+
+
+def near_miss(draw, desc):
+    """exactly one local edit somewhere in the tree; returns (new desc, edit name or None)"""
+    root, refs = _node_refs(_copy.deepcopy(desc))
+    order = draw(st.permutations(list(range(len(refs)))))
+    edits = draw(st.permutations(list(NEAR_MISS_EDITS)))
+    for e in edits:
+        for j in order:
+            c, i = refs[j]
+            n = c[i]
+            t = n[0]
+            if e == 'list_tuple' and t in ('list', 'tuple'):
+                c[i] = ['tuple' if t == 'list' else 'list', n[1]]
+                return root[0], e
+            if e == 'arity_plus' and t in ('list', 'tuple', 'deque', 'cg', 'ci', 'cq'):
+                n[1].append(['i', 7])
+                if t == 'deque':
+                    n[3] = []
+                return root[0], e
+            if e == 'arity_minus' and t in ('list', 'tuple', 'cg', 'ci', 'cq') and n[1]:
+                n[1].pop(draw(st.integers(0, len(n[1]) - 1)))
+                return root[0], e
+            if e in ('key_rename', 'key_add', 'key_remove') and t in ('dict', 'od', 'dd', 'cm', 'cp'):
+                items = n[2] if t == 'dd' else n[1]
+                if t in ('dict', 'od', 'dd') and any(op[0] == 'auto' for op in (n[3] if t == 'dd' else n[2])):
+                    continue
+                fresh = 'qq' if t in ('cm', 'cp') else ['s', 'qq']
+                if e == 'key_add':
+                    items.append([fresh, ['i', 7]])
+                    return root[0], e
+                if items and e == 'key_remove':
+                    items.pop(draw(st.integers(0, len(items) - 1)))
+                    return root[0], e
+                if items and e == 'key_rename':
+                    items[draw(st.integers(0, len(items) - 1))][0] = fresh
+                    return root[0], e
+            if e == 'nt_swap' and t == 'nt' and n[1] in ('NT2', 'NTSub'):
+                n[1] = 'NTSub' if n[1] == 'NT2' else 'NT2'
+                return root[0], e
+            if e == 'meta_change' and t in ('cg', 'cn', 'dc'):
+                k = 2 if t == 'cg' else 3
+                n[k] = 'changed' if n[k] != 'changed' else 'changed2'
+                return root[0], e
+            if e == 'meta_change' and t == 'cu':
+                n[2] = list(n[2]) + [9]
+                return root[0], e
+            if e == 'node_to_leaf' and t not in LEAF_TAGS and t != 'none' and j != 0:
+                c[i] = ['L', 77]
+                return root[0], e
+            if e == 'none_leaf' and t == 'none':
+                c[i] = ['L', 78]
+                return root[0], e
+            if e == 'none_leaf' and t in LEAF_TAGS:
+                c[i] = ['none']
+                return root[0], e
+            if e == 'kind_swap' and t in ('list', 'tuple') :
+                c[i] = ['deque', n[1], 'none', []]
+                return root[0], e
+            if e == 'dict_to_cm' and t == 'dict' and all(k[0] == 's' and k[1] in 'xyzw' for k, _ in n[1]):
+                c[i] = ['cm', [[k[1], v] for k, v in n[1]]]
+                return root[0], e
+    return root[0], None
+
+
+@st.composite
+def nested_dict_descs(draw, depth=None):
+    """dict skeleton: depth 2-3, 2-4 keys per dict, children of unequal sizes (reorder branch)"""
+    depth = depth if depth is not None else draw(st.integers(2, 3))
+    keypool = [['s', 'a'], ['s', 'b'], ['s', 'c'], ['s', 'd'], ['i', 1], ['i', 2], ['n']]
+
+    def mk(d):
+        n = draw(st.integers(2, 4))
+        ks = draw(st.permutations(keypool))[:n]
+        if not draw(st.integers(0, 3)):
+            ks = [k for k in ks if k[0] == 's'] or [['s', 'a'], ['s', 'b']]
+        items = []
+        for k in ks:
+            c = draw(st.integers(0, 5))
+            if c == 0 and d > 1:
+                v = mk(d - 1)
+            elif c <= 2:
+                v = ['L', draw(st.integers(0, 99))]
+            elif c == 3:
+                v = ['tuple', [['L', draw(st.integers(0, 99))] for _ in range(draw(st.integers(0, 3)))]]
+            elif c == 4 and d > 1:
+                v = mk(d - 1)
+            else:
+                v = ['list', [['i', 0], ['tuple', [['i', 1], ['i', 2]]]]]
+            items.append([k, v])
+        kind = draw(st.sampled_from(['dict', 'dict', 'od', 'dd']))
+        if kind == 'dd':
+            return ['dd', draw(_FACT), items, []]
+        return [kind, items, []]
+
+    return mk(depth)
+
+
+PAIR_MODES = ('same', 'suffix', 'suffix', 'near_miss', 'near_miss', 'dict_variant', 'dict_variant',
+              'nested_dict_variant', 'nested_dict_variant', 'unrelated', 'suffix_variant')
+
+
+@st.composite
+def pair_descs(draw, max_leaves=10, kinds=None, modes=PAIR_MODES, keys=None):
+    """-> {'a': prefix-ish desc, 'b': full-ish desc, 'rel': how b was derived from a, 'edit': ...}"""
+    mode = draw(st.sampled_from(list(modes)))
+    sub = tree_descs(max(3, max_leaves // 3), kinds=kinds, keys=keys, max_depth=3)
+    edit = None
+    if mode.startswith('nested_dict'):
+        a = draw(nested_dict_descs())
+    else:
+        a = draw(tree_descs(max_leaves, kinds=kinds, keys=keys))
+    if mode == 'same':
+        b = _copy.deepcopy(a)
+    elif mode == 'suffix':
+        b = substitute_leaves(draw, a, sub, at_least_one=True)
+    elif mode == 'near_miss':
+        b0 = substitute_leaves(draw, a, sub) if draw(st.booleans()) else a
+        b, edit = near_miss(draw, b0)
+    elif mode == 'dict_variant':
+        b = dict_variant(draw, a)
+    elif mode == 'suffix_variant':
+        b = dict_variant(draw, substitute_leaves(draw, a, sub, at_least_one=True))
+    elif mode == 'nested_dict_variant':
+        b = dict_variant(draw, substitute_leaves(draw, a, sub) if draw(st.booleans()) else a)
+    else:
+        b = draw(tree_descs(max_leaves, kinds=kinds, keys=keys))
+    return {'a': a, 'b': b, 'rel': mode, 'edit': edit}
